@@ -3,7 +3,7 @@ CONFIG = {
     "driver": "c10_driver.ml",
     "model_module": "c10_model",
     "level": "proof",
-    "level_text": "Theorems glyph_i_is_original, closure_minimal_and_closed, cmap_exact, kerning_commutes, ligatures_commute, encoding_transferred, cff_subset_glyph_i_is_original (Coq, no axioms) about M_subset, a step-by-step model of (*Font).Subset over abstract fonts (glyph records with outline id / width / name / CID / FD, composite reference lists, cmap subtables, built-in encoding, GSUB 1.1/4.1 rules, GPOS 2.1 pairs, private dicts and matrices per FD): for every well-formed abstract font, every duplicate-free glyph list and every map-iteration order the model returns a subset whose glyph i is the original glyph listed at i, whose appended glyphs are exactly the least set closed under substitution rules and then composite components, whose composite references point to the new glyph carrying the original component, whose cmap maps c to k iff c mapped to the glyph listed at k, and on which kerning and substitution lookups (same lookup indices) commute with renumbering on all sequences of listed or rule-produced glyphs. The nMissing-counter loop of SubsetGsub and the worklist of SubsetGlyf are modelled with fuel and proved to terminate. The model is tied to subset.go / cff/subset.go by running the real Subset and the extracted model (and the independent executable specification S_subset) on generated fonts and comparing canonical observations; a Go oracle states the clauses on the real fonts with the real shaping engine and Write/Read.",
+    "level_text": "Theorems glyph_i_is_original, closure_minimal_and_closed, cmap_exact, kerning_commutes, ligatures_commute, encoding_transferred, cff_subset_glyph_i_is_original, spec_selection, selection_matches_spec (Coq, no axioms) about M_subset, a step-by-step model of (*Font).Subset over abstract fonts (glyph records with outline id / width / name / CID / FD, composite reference lists, cmap subtables, built-in encoding, GSUB 1.1/4.1 rules, GPOS 2.1 pairs, private dicts and matrices per FD): for every well-formed abstract font, every duplicate-free glyph list and every map-iteration order the model returns a subset whose glyph i is the original glyph listed at i, whose appended glyphs are exactly the least set closed under substitution rules and then composite components, whose composite references point to the new glyph carrying the original component, whose cmap maps c to k iff c mapped to the glyph listed at k, and on which kerning and substitution lookups (same lookup indices) commute with renumbering on all sequences of listed or rule-produced glyphs. The nMissing-counter loop of SubsetGsub and the worklist of SubsetGlyf are modelled with fuel and proved to terminate. The executable specification S_subset (given list, then the other needed glyphs in increasing order) is proved to select exactly the needed glyphs, and the model's glyph list is proved to be a permutation of it with the same prefix. The model is tied to subset.go / cff/subset.go by running the real Subset and the extracted model (and the independent executable specification S_subset) on generated fonts and comparing canonical observations; a Go oracle states the clauses on the real fonts with the real shaping engine and Write/Read.",
     "level_note": "Trusted: Coq kernel, extraction (ExtrOcamlBasic), the Go harness (font builder, projection to the abstract font, canonicaliser, oracle). The Go code is modelled (C10/Model.v mirrors the repaired subset.go), not verified. Outlines, private dictionaries and matrices are opaque ids; Write/Read of the subset is checked by the oracle only (open finding: CFF built-in encoding with a gap). 'Retained' is read as 'listed' for the cmap and as 'listed or produced by a substitution rule' for kerning/ligatures: the code builds the cmap before and GSUB/GPOS between the two closures (Examples.v: cmap_covers_extras_refuted, rules_after_components_refuted).",
     "trusted_base": [
         "modelled, not verified: subset.go (Subset, getNewGid, retained, SubsetCMap, SubsetGsub steps 1-3, SubsetGpos, SubsetCFF, SubsetGlyf, pop), cff/subset.go (Outlines.Subset), glyf/composite.go (Components, FixComponents) as C10/Model.v; tied by running the real code and the extracted model on the same abstract fonts and glyph lists",
